@@ -605,6 +605,18 @@ func vfGccRunSeq(sc *vfGccScript, lg *vfGccLog, d *vfGccDriver) {
 	res := "ok"
 	vfGccWithin("WriteRTCP after Close", func() { res = d.feed(r.fb.build("inc", 0)) })
 	r.lg.add(vfM{"a": "fb", "pat": "inc", "loss": 0, "n": 1, "res": res})
+	// ... whatever the batch is made of: reports only, a NACK, a PLI, an empty batch, no batch at all
+	for _, batch := range [][]rtcp.Packet{
+		{&rtcp.ReceiverReport{SSRC: 7}}, {&rtcp.TransportLayerNack{SenderSSRC: 7, MediaSSRC: vfGccSSRC, Nacks: []rtcp.NackPair{{PacketID: 3}}}},
+		{&rtcp.PictureLossIndication{SenderSSRC: 7, MediaSSRC: vfGccSSRC}, &rtcp.ReceiverReport{SSRC: 7}}, {}, nil,
+	} {
+		if len(batch) == 0 && r.sc.Level != "bwe" {
+			continue // (through the cc interceptor an empty batch is not a readable RTCP packet)
+		}
+		res2 := "ok"
+		vfGccWithin("WriteRTCP (no congestion feedback) after Close", func() { res2 = d.feed(batch) })
+		r.lg.add(vfM{"a": "fb", "pat": "nofeedback", "loss": 0, "n": len(batch), "res": res2})
+	}
 	r.quiesce()
 	// a second Close of a closed estimator is harmless (whatever the pacer's Close said the first time)
 	var err2 error
